@@ -229,7 +229,8 @@ def run(ctx):
                 except Exception:
                     raise AnalysisError('C14.1: cannot evaluate alphabet base %s' % norm(base)[:60])
                 produced.setdefault(caps_dec[0], set()).update(range(b, b + mod))
-    ctx.floor('C14.1', nchr, 1, 'chr() in number_to_letter_id')
+    if nchr == 0:
+        raise AnalysisError('C14.1: the encoder no longer builds its letters with chr(): the alphabet it can produce cannot be read off')
     for caps, want in ((True, set(range(ord('A'), ord('Z') + 1))), (False, set(range(ord('a'), ord('z') + 1)))):
         got = produced.get(caps, set())
         ctx.check(got == want, 'C14.1', 'encoder:alphabet:%s' % ('caps' if caps else 'lower'), f_enc.loc(), 'the encoder produces exactly the 26 letters %s..%s' % (chr(min(want)), chr(max(want))),
@@ -246,6 +247,14 @@ def run(ctx):
               'digits %s are accepted as letters: the id part of a label would be swallowed' % sorted(chr(c) for c in digits & accepted))
     f_poi = repo.func('matcher._parse_obj_id_matcher')
     pp = paths_of(repo, f_poi, while_unroll=1)
+    # the rule speaks about labels (digits followed by letters): a path that no label can take - by the decisions that fold on sample labels -
+    # belongs to some other spelling of an object id and is not judged here
+    from .common import paths_for_input as _pfi14, cparams as _cp14
+    par14 = _cp14(f_poi)[0]
+    feas14 = set()
+    for sample in ('7', '7a', '12bc', '340zz'):
+        feas14 |= {id(p_) for p_ in _pfi14(pp, {par14: sample})}
+    pp = [p_ for p_ in pp if id(p_) in feas14]
     nsplit = 0
     for p in pp:
         if p.outcome[0] != 'return':
@@ -377,9 +386,37 @@ def run(ctx):
         ctx.check(norm(p.outcome[1]) == want and bool(none), 'C14.2', 'matcher:pair:%s' % (none[0] if none else '?'), f_oim.loc(),
                   'the matcher sees the pair (id, generation) unmodified (generation 0 when unset)', 'the matcher sees %s' % norm(p.outcome[1]))
     f_pg = repo.func('matcher._parse_generation_matcher')
+    # (judged on the paths a run of letters can take: decisions that fold on the samples select the paths; a path that hangs on a decision which
+    # does not fold - a test by a function the tree gained - and does not conform leaves the clause undecided)
+    from ..peval import fold_text as _ft14, Unfoldable as _Unf14
+    par_g = _cp14(f_pg)[0]
+    n_gen = 0
     for p in paths_of(repo, f_pg):
-        ctx.check(p.outcome[0] == 'return' and norm(p.outcome[1]) == 'EqMatcher(letter_id_to_number(text), text)', 'C14.2', 'matcher:generation-from-letters', f_pg.loc(),
+        feasible = False
+        hangs = False
+        for sample in ('a', 'b', 'ab', 'zz'):
+            okp = True
+            for a_, v_ in p.decisions:
+                try:
+                    fv = _ft14(a_.text, {par_g: sample}, None, None)
+                    if isinstance(fv, tuple) and len(fv) == 2 and fv[0] == 'sym':
+                        hangs = True
+                        continue
+                    if bool(fv) != v_:
+                        okp = False
+                        break
+                except _Unf14:
+                    hangs = True
+            feasible = feasible or okp
+        if not feasible:
+            continue
+        conforms = p.outcome[0] == 'return' and norm(p.outcome[1]) == 'EqMatcher(letter_id_to_number(%s), %s)' % (par_g, par_g)
+        if not conforms and hangs:
+            raise AnalysisError('C14.2: cannot decide which path of _parse_generation_matcher a run of letters takes (%s)' % [a_.text[:40] for a_, v_ in p.decisions][:3])
+        n_gen += 1
+        ctx.check(conforms, 'C14.2', 'matcher:generation-from-letters', f_pg.loc(),
                   'the generation matched is letter_id_to_number(letters), without offset', 'generation matcher is %s' % p.outcome_text()[:100])
+    ctx.floor('C14.2', n_gen, 1, 'path of _parse_generation_matcher for a run of letters')
     f_pm_ = repo.func('PairMatcher.matches')
     for p in paths_of(repo, f_pm_):
         if p.outcome[0] == 'return' and norm(p.outcome[1]) not in ('False',):
